@@ -4,7 +4,8 @@ from .C07 import close_pair_lines
 from .common import TRUSTED, ASSUMPTIONS, default_nontrivial, LEVEL_NOTE, TECHNIQUE
 
 LEVEL = "proof"
-THEOREMS = ['C02_total', 'C02_simplex_wf', 'C02_simplex_wf_ecm', 'C02_base_rate_between', 'C02_base_rate_between_unconditional', 'C02_base_rate_shared', 'C02_base_rate_sum', 'C02_base_rate_sum_bound', 'C02_wf', 'C02_wf_ecm', 'C02_fuse_os', 'C02_fuse_ss']
+THEOREMS = ['C02_total', 'C02_simplex_wf', 'C02_simplex_wf_ecm', 'C02_base_rate_between', 'C02_base_rate_between_unconditional', 'C02_base_rate_shared', 'C02_base_rate_sum', 'C02_base_rate_sum_bound', 'C02_wf', 'C02_wf_ecm', 'C02_fuse_os', 'C02_fuse_ss',
+            'C02_ecm_masses_nonneg', 'C02_ecm_masses_nonneg_gen', 'C02_wf_ecm_unconditional']
 EXTRA_MODULES = [("SLV.Props.Guards", "C02_")]
 RULE = ("fuse / fuse_os / fuse_ss for the 4 operators: guard lattice (vacuous, dogmatic, tolerance-edge vacuous u=1-k*eps/2, "
         "tolerance-edge dogmatic, interior; base rates different / equal / within a few ulps / one shared object), dyadic grids "
@@ -22,11 +23,17 @@ RULE = ("fuse / fuse_os / fuse_ss for the 4 operators: guard lattice (vacuous, d
         "Simplex::try_new must accept the fused simplex, and Opinion::try_new the fused opinion when the operands' base-rate values "
         "are equal (clause C02.ecm_result_accepted_by_constructor; with different base rates the un-normalised fused base rate may "
         "leave the band by rounding, e.g. sums 1+3eps and 1-2eps give 1-2.5eps: reported by the correspondence check as ill-conditioned, "
-        "not required). non-trivial = value returned, not both operands vacuous")
+        "not required). STRICT sign clause C02.ecm_masses_nonneg (repair 8520ade): on every ok, finite ECm result whose operand entries are "
+        "all >= 0 exactly and u1, u2 <= 1 every fused mass is >= 0 exactly and the fused u is in [0, 1] exactly (before the repair 0.4-3 % of "
+        "ECm fusions on the dyadic / decimal grids returned a mass of about -eps/4); replay lines: ECm of ([0,0],1,[0,1]) and "
+        "([1/8,1/2],3/8,[7/8,1/8]) in both orders, and two dogmatic operands sharing a = [eps, 1]. "
+        "non-trivial = value returned, not both operands vacuous")
 EXHAUSTIVE = {}
 LEVEL_TEXT = ("Theorems over the exact model for every n and rational well-formed operands: fusion is total, the fused simplex is "
               "well-formed, every fused base-rate entry lies between the operands' entries and the base rate sums to 1 (no hypothesis "
-              "on the base rates since the per-entry shortcut is taken at exactly equal entries only, repair c8a7116). Tied to FuseOp::fuse / fuse_assign by the correspondence check over the guard lattice; "
+              "on the base rates since the per-entry shortcut is taken at exactly equal entries only, repair c8a7116); every belief mass of an ECm "
+              "fusion is >= 0 and the whole ECm result is a well-formed opinion without any hypothesis on the guard band (repair 8520ade: clamp), and on ALL "
+              "operands of the exact semantics no ECm mass compares below zero when the un-clamped max_uncertainty does not. Tied to FuseOp::fuse / fuse_assign by the correspondence check over the guard lattice; "
               "well-formedness and betweenness are evaluated on the implementation's outputs (catch_unwind observes panics).")
 
 
